@@ -3,6 +3,6 @@ CONSTANTS
   Vary = {"lit", "callee", "mainpos"}
   Fns = {"Println"}
   Shs = {"-"}
-  ScopeAware = FALSE
+  ScopeAware = TRUE
 INVARIANTS TypeOK Confluent ImportSound Export
 PROPERTIES Stable Terminates
